@@ -7,11 +7,24 @@ Description
 All exceptions exposed by the Vtl engine.
 """
 
+import threading
 from typing import Any, List, Optional
 
 from vtlengine.Exceptions.messages import centralised_messages
 
-dataset_output = None
+# Name of the output Dataset of the transformation being analysed, added to error messages.
+# Kept per thread: concurrent calls must not report each other's output names.
+_output_context = threading.local()
+
+
+def set_dataset_output(name: Optional[str]) -> None:
+    """Set the output Dataset name reported by errors raised from the current thread."""
+    _output_context.name = name
+
+
+def get_dataset_output() -> Optional[str]:
+    """Get the output Dataset name reported by errors raised from the current thread."""
+    return getattr(_output_context, "name", None)
 
 
 class VTLEngineException(Exception):
@@ -45,6 +58,7 @@ class SemanticError(VTLEngineException):
     comp_code = None
 
     def __init__(self, code: str, comp_code: Optional[str] = None, **kwargs: Any) -> None:
+        dataset_output = get_dataset_output()
         if dataset_output:
             message = (
                 centralised_messages[code]["message"].format(**kwargs)
@@ -71,6 +85,7 @@ class RunTimeError(VTLEngineException):
         **kwargs: Any,
     ) -> None:
         message = centralised_messages[code]["message"].format(**kwargs)
+        dataset_output = get_dataset_output()
         if dataset_output:
             message += self.output_message + str(dataset_output)
 
@@ -167,6 +182,7 @@ class DataLoadError(VTLEngineException):
         **kwargs: Any,
     ) -> None:
         message = centralised_messages[code]["message"].format(**kwargs)
+        dataset_output = get_dataset_output()
         if dataset_output:
             message += self.output_message + " " + str(dataset_output)
         else:
